@@ -5,6 +5,7 @@ CONSTANTS
   QuietClears = FALSE
   Flags <- NoFlags
   Verbs <- NoFlags
+  Indents <- NoFlags
   QuietOps = FALSE
   W = 4
   Lens <- LensMid
